@@ -1111,6 +1111,11 @@ impl Render<'_> {
             }
             Cmd::Wait(vars) => {
                 let mut s = String::from("wait");
+                // an operand that is not a child of this shell before the real ones: the status is
+                // still that of the last operand, and the real children are still waited for
+                if !vars.is_empty() && self.rng.chance(25) {
+                    s.push_str(" 99999");
+                }
                 for v in vars {
                     s.push_str(&format!(" $p{v}"));
                 }
